@@ -9,18 +9,22 @@ pub struct IStr(pub u8);
 
 /// A value is the trace of the `+` fold that produced it: up to three 2-bit layer tokens, most
 /// significant first. `evaluate_add_op(a, b)` concatenates, so fold order and dropped operands are visible.
+/// Concatenation alone is associative while Jsonnet's `+` is not ((1 + 2) + "x" = "3x", 1 + (2 + "x") = "12x"):
+/// `nested` records that some `+` received an already combined value on its *right*, which the prescribed
+/// left-to-right fold ((base + l2) + l3) never does.
 #[derive(Clone, Copy, Debug, PartialEq, Eq)]
 pub struct Val {
     pub code: u16,
     pub len: u8,
+    pub nested: bool,
 }
 impl Val {
     pub fn token(t: u8) -> Self {
-        Val { code: t as u16, len: 1 }
+        Val { code: t as u16, len: 1, nested: false }
     }
 }
 pub fn evaluate_add_op(a: &Val, b: &Val) -> Result<Val> {
-    Ok(Val { code: (a.code << (2 * b.len as u16)) | b.code, len: a.len + b.len })
+    Ok(Val { code: (a.code << (2 * b.len as u16)) | b.code, len: a.len + b.len, nested: a.nested || b.nested || b.len > 1 })
 }
 /// member body: evaluates to its token whatever `self`/`super` are (bindings are out of scope)
 #[derive(Debug, Clone, Copy)]
